@@ -187,6 +187,8 @@ Proof.
     repeat split; auto. now apply negb_true_iff in S1.
   - destruct (c17_nonint_neighbours val F NI) as [Nf Nf1]. fold f in Nf, Nf1.
     destruct (c17_ofZ_small f Nf) as [Vf Ff]. destruct (c17_ofZ_small (f + 1) Nf1) as [Vf1 Ff1].
+    assert (Gd : (f =? c17_imax t)%Z = false).           (* the guard at max(I) does not fire: f + 1 is a value of I *)
+    { apply Z.eqb_neq. apply c17_inrange_iff in Rf1. lia. }
     rewrite (c17_cast_finite t val F).
     destruct (c17_floor_nonint_cases (B2R val) NI) as [(Neg & Tr & Lt)|(Pos & Tr & Lt)]; fold f in Tr, Lt; rewrite Tr.
     + (* val < 0: the cast gives f+1 > val, corrected to f *)
@@ -194,17 +196,38 @@ Proof.
       rewrite (c17_feqb_real _ _ Ff1 F), Vf1, Req_bool_false by lra.
       rewrite (c17_fgt_real _ _ Ff1 F), Vf1, Rlt_bool_true by lra.
       replace (f + 1 - 1)%Z with f by lia. rewrite (c17_fit_in t f Rf). cbn [c17_bind].
-      rewrite (c17_fit_in t (f + 1) Rf1). cbn [c17_bind].
+      rewrite Gd.
+      rewrite (c17_expr_in t (f + 1) Rf1). cbn [c17_bind].
       destruct (EQ s eps (ofZ (f + 1)) val) eqn:Q.
-      * exists (f + 1)%Z. split; auto.
+      * exists (f + 1)%Z. split; auto using c17_store_in.
       * exists f. split; auto.
     + rewrite Rf. cbn [c17_bind].
       rewrite (c17_feqb_real _ _ Ff F), Vf, Req_bool_false by lra.
       rewrite (c17_fgt_real _ _ Ff F), Vf, Rlt_bool_false by lra.
-      cbn [c17_bind]. rewrite (c17_fit_in t (f + 1) Rf1). cbn [c17_bind].
+      cbn [c17_bind]. rewrite Gd. rewrite (c17_expr_in t (f + 1) Rf1). cbn [c17_bind].
       destruct (EQ s eps (ofZ (f + 1)) val) eqn:Q.
-      * exists (f + 1)%Z. split; auto.
+      * exists (f + 1)%Z. split; auto using c17_store_in.
       * exists f. split; auto.
+Qed.
+
+(* at the top of the range (fixes/C17-4.patch): floor(val) = max(I), val not integral: the truncated value max(I) is returned,
+   whatever the tolerance says about the unrepresentable max(I)+1 *)
+Lemma C17_trunc_down_top_lemma (t : c17_ity) (s : c17_cstyle) (eps val : fl) :
+  let f := Zfloor (B2R val) in
+  is_finite val = true -> IZR f <> B2R val -> f = c17_imax t -> c17_inrange t f = true ->
+  (0 < B2R val)%R ->
+  negb (c17_signed t) && EQ s eps val fzero = false ->
+  TRD t s eps val = C17_Val f.
+Proof.
+  intros f F NI Top Rf Pos Sp. unfold c17_trunc_down_fix. rewrite Sp.
+  destruct (c17_nonint_neighbours val F NI) as [Nf Nf1]. fold f in Nf, Nf1.
+  destruct (c17_ofZ_small f Nf) as [Vf Ff].
+  rewrite (c17_cast_finite t val F).
+  destruct (c17_floor_nonint_cases (B2R val) NI) as [(Neg & _)|(_ & Tr & Lt)]; [lra|]. fold f in Tr, Lt. rewrite Tr, Rf.
+  cbn [c17_bind].
+  rewrite (c17_feqb_real _ _ Ff F), Vf, Req_bool_false by lra.
+  rewrite (c17_fgt_real _ _ Ff F), Vf, Rlt_bool_false by lra.
+  cbn [c17_bind]. rewrite Top, Z.eqb_refl. reflexivity.
 Qed.
 
 (* ---------------------------------------------------------------- trunc, upward *)
